@@ -155,6 +155,38 @@ def test_label(K, sc, labels):
     return "%s=%s" % (K.c(sc), "|".join(str(x) for x in labels))
 
 
+def _unplumb(t):
+    while t[0] == "call" and t[1] in _PLUMB and len(t[2]) == 1:
+        t = t[2][0]
+    return t
+
+
+def _split_option(ctx, t, depth=0):
+    """`opt.map_or(d, |x| e)` / `opt.map(|x| e).unwrap_or(d)` / `opt.map_or_else(|| d, |x| e)` are the two rows of the
+    `match opt { None => d, Some(x) => e }` they abbreviate: [( [(opt, "None")], d ), ( [(opt, "Some")], e[x := payload] )]"""
+    t = _unplumb(t)
+    opt = dflt = clos = None
+    if t[0] == "call" and t[1] == "std::option::Option::map_or" and len(t[2]) == 3:
+        opt, dflt, clos = t[2]
+    elif t[0] == "call" and t[1] == "std::option::Option::unwrap_or" and len(t[2]) == 2:
+        m = _unplumb(t[2][0])
+        if m[0] == "call" and m[1] == "std::option::Option::map" and len(m[2]) == 2:
+            opt, clos, dflt = m[2][0], m[2][1], t[2][1]
+    elif t[0] == "call" and t[1] == "std::option::Option::map_or_else" and len(t[2]) == 3 and t[2][1][0] == "closure":
+        d = Inliner(ctx).inline_closure(t[2][1], [])
+        if d is not None:
+            opt, dflt, clos = t[2][0], d, t[2][2]
+    if opt is None or clos is None or clos[0] != "closure" or depth > 3:
+        return [([], t)]
+    opt = _unplumb(opt)
+    body = Inliner(ctx).inline_closure(clos, [("field", ("downcast", opt, "Some"), "0")])
+    if body is None:
+        return [([], t)]
+    out = [([(opt, "None")] + e, u) for e, u in _split_option(ctx, dflt, depth + 1)]
+    out += [([(opt, "Some")] + e, u) for e, u in _split_option(ctx, body, depth + 1)]
+    return out
+
+
 def rows_of(ctx, f):
     """{row label: set(canonical term)}, open?, calls - over every non-propagating value stored into the return place"""
     T = ctx.T(f)
@@ -183,7 +215,8 @@ def rows_of(ctx, f):
                 if sc[0] == "call" and sc[1] == "std::ops::Try::branch":
                     continue        # the success edge of a `?` - already visible as `x?` in the term
                 labs.append(test_label(K, sc, took[0][1]))
-        out.setdefault(" & ".join(sorted(labs)), set()).add(K.c(t))
+        for extra, u in _split_option(ctx, t):
+            out.setdefault(" & ".join(sorted(labs + [K.c(x) + "=" + v for x, v in extra])), set()).add(K.c(u))
     return out, K.open, K.calls
 
 
